@@ -229,3 +229,36 @@ Qed.
 End SMap.
 
 Arguments smap : clear implicits.
+
+(* ---------- extensionality of sorted maps ---------- *)
+Section Ext.
+Context {V : Type}.
+
+Lemma sm_get_head_lt k k' (v' : V) r : lex_lt k k' = true -> sorted ((k', v') :: r) -> sm_get k ((k', v') :: r) = None.
+Proof.
+  intros H S. cbn. unfold lex_lt in H. destruct (lex_cmp k k'); try discriminate. reflexivity.
+Qed.
+
+Theorem sorted_ext (m1 m2 : smap V) : sorted m1 -> sorted m2 ->
+  (forall k, sm_get k m1 = sm_get k m2) -> m1 = m2.
+Proof.
+  revert m2. induction m1 as [|[k1 v1] r1 IH]; intros m2 S1 S2 H.
+  - destruct m2 as [|[k2 v2] r2]; auto. specialize (H k2). cbn in H. rewrite lex_cmp_refl in H. discriminate.
+  - destruct m2 as [|[k2 v2] r2].
+    + specialize (H k1). cbn in H. rewrite lex_cmp_refl in H. discriminate.
+    + destruct (lex_total k1 k2) as [L|[E|G]].
+      * pose proof (H k1) as H1. rewrite (sm_get_head_lt k1 k2 v2 r2 L S2) in H1. cbn in H1. rewrite lex_cmp_refl in H1. discriminate.
+      * subst k2. pose proof (H k1) as H1. cbn in H1. rewrite lex_cmp_refl in H1. inversion H1; subst v2. f_equal.
+        apply IH; [eapply sorted_tail; eauto|eapply sorted_tail; eauto|].
+        intros k. specialize (H k). cbn in H. destruct (lex_cmp k k1) eqn:Ek; auto.
+        -- apply lex_cmp_eq in Ek. subst k.
+           rewrite (sm_get_lt_all k1 r1 (sorted_lt_all _ _ _ S1)), (sm_get_lt_all k1 r2 (sorted_lt_all _ _ _ S2)). reflexivity.
+        -- assert (La : forall r (v : V), sorted ((k1, v) :: r) -> sm_get k r = None).
+           { intros r v S. apply sm_get_lt_all. pose proof (sorted_lt_all _ _ _ S) as L.
+             eapply Forall_impl; [|exact L]. intros [a b] Ha; cbn in *. eapply lex_lt_trans; [|exact Ha].
+             unfold lex_lt. rewrite Ek. reflexivity. }
+           rewrite (La r1 v1 S1), (La r2 v1 S2). reflexivity.
+      * pose proof (H k2) as H2. rewrite (sm_get_head_lt k2 k1 v1 r1 G S1) in H2. cbn in H2. rewrite lex_cmp_refl in H2. discriminate.
+Qed.
+
+End Ext.
